@@ -269,11 +269,11 @@ fn clause_attrs(spec: &StructSpec, c: &Clause) -> Vec<String> {
     c.iter().enumerate().filter_map(|(di, a)| a.map(|ai| attr_text(spec, di, ai))).collect()
 }
 
-/// Renders a policy (1 or 2 clauses) in one of three shapes.
+/// Renders a policy (1 or 2 clauses) in one of four shapes.
 pub fn render(spec: &StructSpec, pol: &[Clause], shape: usize) -> String {
     let cl: Vec<Vec<String>> = pol.iter().map(|c| clause_attrs(spec, c)).collect();
     let flat = |c: &Vec<String>| if c.is_empty() { "*".to_string() } else { c.join(" && ") };
-    match shape % 3 {
+    match shape % 4 {
         0 => cl.iter().map(flat).collect::<Vec<_>>().join(" || "),
         1 => {
             // factored when two clauses share a factor
@@ -287,6 +287,15 @@ pub fn render(spec: &StructSpec, pol: &[Clause], shape: usize) -> String {
                 }
             }
             cl.iter().map(|c| if c.is_empty() { "*".to_string() } else { format!("({})", c.join(" && ")) }).collect::<Vec<_>>().join(" || ")
+        }
+        3 => {
+            // a neutral broadcast operand next to every conjunction (`X && (*)` reads X), on
+            // alternating sides
+            cl.iter()
+                .enumerate()
+                .map(|(k, c)| if c.is_empty() { "*".to_string() } else if k % 2 == 0 { format!("{} && (*)", c.join(" && ")) } else { format!("(*) && {}", c.join(" && ")) })
+                .collect::<Vec<_>>()
+                .join(" || ")
         }
         _ => {
             // noisy: redundant parentheses, irregular blanks, juxtaposition of groups
@@ -515,7 +524,7 @@ pub fn run_structure(spec: &StructSpec, thorough: bool) -> CellStats {
     let mut encs: Vec<Option<(XEnc, Vec<u8>)>> = vec![];
     let mut msk = b.msk;
     for (i, pol) in pols.iter().enumerate() {
-        let texts: Vec<String> = (0..3).map(|s| render(spec, pol, s)).collect();
+        let texts: Vec<String> = (0..4).map(|s| render(spec, pol, s)).collect();
         let parsed: Vec<Option<AccessPolicy>> = texts.iter().map(|t| catch_unwind(|| AccessPolicy::parse(t)).ok().and_then(Result::ok)).collect();
         if parsed.iter().any(Option::is_none) {
             st.failures.push(("C15.b".into(), format!("{}: one of {texts:?} does not parse", spec.describe())));
@@ -527,10 +536,10 @@ pub fn run_structure(spec: &StructSpec, thorough: bool) -> CellStats {
         let ur: Vec<_> = aps.iter().map(|ap| msk.access_structure.ap_to_usk_rights(ap).ok()).collect();
         let er: Vec<_> = aps.iter().map(|ap| msk.access_structure.ap_to_enc_rights(ap).ok()).collect();
         st.shape_checks += 2;
-        if ur[0] != ur[1] || ur[0] != ur[2] || er[0] != er[1] || er[0] != er[2] {
-            st.failures.push(("C15.c".into(), format!("{}: the three renderings {texts:?} expand to different rights", spec.describe())));
+        if ur.iter().any(|u| *u != ur[0]) || er.iter().any(|e| *e != er[0]) {
+            st.failures.push(("C15.c".into(), format!("{}: the four renderings {texts:?} expand to different rights", spec.describe())));
         }
-        let ap = &aps[i % 3];
+        let ap = &aps[i % 4];
         match catch_unwind(AssertUnwindSafe(|| b.cc.generate_user_secret_key(&mut msk, ap))) {
             Ok(Ok(usk)) => {
                 // C11.c: flavour of every secret of the key
@@ -539,7 +548,7 @@ pub fn run_structure(spec: &StructSpec, thorough: bool) -> CellStats {
                         for k in chain {
                             st.flavour_checks += 1;
                             if k.hybrid() != right_hybrid(r) {
-                                st.failures.push(("C11.c".into(), format!("{}: user key {:?} holds right {} hybrid={}, expected {}", spec.describe(), texts[i % 3], wire::hex(r), k.hybrid(), right_hybrid(r))));
+                                st.failures.push(("C11.c".into(), format!("{}: user key {:?} holds right {} hybrid={}, expected {}", spec.describe(), texts[i % 4], wire::hex(r), k.hybrid(), right_hybrid(r))));
                             }
                         }
                     }
@@ -547,15 +556,15 @@ pub fn run_structure(spec: &StructSpec, thorough: bool) -> CellStats {
                 usks.push(Some(usk))
             }
             Ok(Err(e)) => {
-                st.failures.push(("C09.o".into(), format!("{}: keygen {:?} failed: {e}", spec.describe(), texts[i % 3])));
+                st.failures.push(("C09.o".into(), format!("{}: keygen {:?} failed: {e}", spec.describe(), texts[i % 4])));
                 usks.push(None);
             }
             Err(_) => {
-                st.failures.push(("C09.p".into(), format!("{}: keygen {:?} panicked", spec.describe(), texts[i % 3])));
+                st.failures.push(("C09.p".into(), format!("{}: keygen {:?} panicked", spec.describe(), texts[i % 4])));
                 usks.push(None);
             }
         }
-        let ap = &aps[(i + 1) % 3];
+        let ap = &aps[(i + 1) % 4];
         match catch_unwind(AssertUnwindSafe(|| b.cc.encaps(&b.mpk, ap))) {
             Ok(Ok((s, e))) => {
                 // C11.d: hybridized iff every targeted right is
@@ -564,11 +573,11 @@ pub fn run_structure(spec: &StructSpec, thorough: bool) -> CellStats {
                 if let Ok(we) = WEnc::decode(&ser(&e)) {
                     st.flavour_checks += 1;
                     if !has_star_early(pol) && we.hybrid != want_h {
-                        st.failures.push(("C11.d".into(), format!("{}: encapsulation of {:?} hybrid={}, expected {want_h}", spec.describe(), texts[(i + 1) % 3], we.hybrid)));
+                        st.failures.push(("C11.d".into(), format!("{}: encapsulation of {:?} hybrid={}, expected {want_h}", spec.describe(), texts[(i + 1) % 4], we.hybrid)));
                     }
                     let has_star = pol.iter().any(|c| c.iter().all(Option::is_none)) && pol.len() > 1;
                     if !has_star && we.items.len() != targets.len() {
-                        st.failures.push(("C01.t".into(), format!("{}: encapsulation of {:?} has {} items for {} targets", spec.describe(), texts[(i + 1) % 3], we.items.len(), targets.len())));
+                        st.failures.push(("C01.t".into(), format!("{}: encapsulation of {:?} has {} items for {} targets", spec.describe(), texts[(i + 1) % 4], we.items.len(), targets.len())));
                     }
                     if we.hybrid {
                         st.hybrid_encs += 1;
@@ -579,11 +588,11 @@ pub fn run_structure(spec: &StructSpec, thorough: bool) -> CellStats {
                 encs.push(Some((e, s.to_vec())))
             }
             Ok(Err(e)) => {
-                st.failures.push(("C09.o".into(), format!("{}: encaps {:?} failed: {e}", spec.describe(), texts[(i + 1) % 3])));
+                st.failures.push(("C09.o".into(), format!("{}: encaps {:?} failed: {e}", spec.describe(), texts[(i + 1) % 4])));
                 encs.push(None);
             }
             Err(_) => {
-                st.failures.push(("C09.p".into(), format!("{}: encaps {:?} panicked", spec.describe(), texts[(i + 1) % 3])));
+                st.failures.push(("C09.p".into(), format!("{}: encaps {:?} panicked", spec.describe(), texts[(i + 1) % 4])));
                 encs.push(None);
             }
         }
